@@ -254,7 +254,7 @@ fn main() {
     }
     let rep = Reporter::new("C12", "fault_enumeration", &args);
     let thorough = args.tier == Tier::Thorough;
-    let max_len = if thorough { 9 } else { 7 };
+    let max_len = if thorough { 11 } else { 10 };
     let mut workloads: Vec<Vec<char>> = Vec::new();
     let mut cur: Vec<Vec<char>> = vec![vec![]];
     for _ in 0..max_len {
@@ -308,7 +308,7 @@ fn main() {
     let coverage = json!({
         "evaluations": cases.len() as u64 + wb,
         "distinct_nontrivial": distinct.lock().unwrap().len(),
-        "rule": "workload = every sequence of <=7 (thorough 9) operations over {push a fresh update, flush, compact} containing a push and a flush; fault plan = none, every single store-call index x {transient failure; for puts also truncated object + error} plus all ordered pairs of faults for workloads of <=5 (thorough 7) ops; each case runs the real StreamingPersistence/Compactor to the end with the process staying up; then EVERY prefix of the store-operation log (plus the torn-put variant of each successful put) is recovered with the real RecoveryManager; distinct_nontrivial = distinct store-operation histories",
+        "rule": "workload = every sequence of <=10 (thorough 11) operations over {push a fresh update, flush, compact} containing a push and a flush; fault plan = none, every single store-call index x {transient failure; for puts also truncated object + error} plus all ordered pairs of faults for workloads of <=5 (thorough 7) ops; each case runs the real StreamingPersistence/Compactor to the end with the process staying up; then EVERY prefix of the store-operation log (plus the torn-put variant of each successful put) is recovered with the real RecoveryManager; distinct_nontrivial = distinct store-operation histories",
         "workloads": workloads.len(),
         "cases": cases.len(),
         "cases_in_which_a_fault_fired": faults_hit.load(Ordering::Relaxed),
